@@ -241,7 +241,24 @@ func c16Run(in V) V {
 				}
 			}
 			if err != nil {
-				r.errOut = c16ErrOut(err)
+				// "results are identical whether the span cache is enabled or disabled" also on the error
+				// path: the same input under the opposite setting must give the same value (none), the
+				// same reported length and the same error value (an error path allocates nothing, so the
+				// span state of the case is not disturbed)
+				thrift.SetSpanCache(!enable)
+				var tb []byte
+				var ts string
+				var tl int
+				var terr error
+				if kind == 0 {
+					tb, tl, terr = thrift.Binary.ReadBinary(buf)
+				} else {
+					ts, tl, terr = thrift.Binary.ReadString(buf)
+				}
+				thrift.SetSpanCache(enable)
+				twin := terr == err && tl == r.l && tb == nil && ts == "" && r.b == nil && r.s == ""
+				eo := c16ErrOut(err)
+				r.errOut = VL(append(append([]V{}, AsList(eo)...), Bo(twin)))
 			} else {
 				r.ok = true
 			}
